@@ -3,6 +3,7 @@ package ring
 import (
 	"encoding/json"
 	"fmt"
+	"os"
 	"time"
 
 	"verifharness/corr"
@@ -46,6 +47,7 @@ func Run(c *corr.Ctx) {
 	c.Rule("sequential: every op sequence over {push,pull,close,reset} of a fixed length for capacities 1,2,4 (exhaustive) + random sequences up to 10^4 ops for capacities 1..256 with fill/drain phases, compared line by line (result + cursors + occupancy) with the Lean model; " +
 		"New on sizes 0..1030, 2^k-1, 2^k, 2^k+1, random uint64; blocking Pull woken by Push/Close; " +
 		"ping-pong liveness workload (consumer asleep in Pull, 1..8 producers each pushing one item and waiting with a 2 s watchdog until it was pulled; 10^6 rounds quick, 10^7 thorough; bare ring and Processor); " +
+		"owner scenarios: real Server + raw RTSP client / library Client over TCP and UDP, every request sequence over {PLAY|RECORD, PAUSE} the state machine allows (client side: also the ones the client must refuse) up to length 3 (thorough 4), after each request N writes must arrive exactly once and in order while active and not at all while paused, and the number of goroutines in Processor.runInner must be exactly the number of active queues (0 after teardown); " +
 		"concurrent (black box): 1..8 producers + consumer + closer on the real RingBuffer and on the real Processor, history checked for linearizability to the bounded FIFO (porcupine) and for the direct clauses; " +
 		"deterministic Processor schedules (gated callbacks, injected errors, Close windows; every well-formed schedule of a fixed length over {push, failing push, start, exec, closebegin, closeend} for capacities 1,2 + random ones) compared with the Lean model; non-trivial = more than one operation; distinct = distinct op-line sequences / run configurations")
 	if c.Replay != nil {
@@ -68,6 +70,10 @@ func Run(c *corr.Ctx) {
 			checkBlockingPull(c, size, 1, true)
 		}
 		pingPongs(c, 300000)
+		return
+	}
+	if os.Getenv("VERIF_RING_ONLY") == "owner" { // development aid
+		ownerScenarios(c, c.N(3, 4))
 		return
 	}
 	corpus(c)
@@ -155,6 +161,11 @@ func Run(c *corr.Ctx) {
 	if stop("concurrent Processor cases") {
 		return
 	}
+	// the queue as its owners use it: real Server + raw / library client, every allowed request sequence
+	ownerScenarios(c, c.N(3, 4))
+	if stop("owner scenarios") {
+		return
+	}
 	raceTier(c)
 }
 
@@ -208,6 +219,15 @@ func replay(c *corr.Ctx) {
 			panic(err)
 		}
 		checkBlockingPull(c, b.Size, b.Prefill, b.Close)
+	case "owner":
+		var oc OwnerCase
+		if err := json.Unmarshal(c.Replay, &oc); err != nil {
+			panic(err)
+		}
+		for i := 0; i < 3 && !enough(); i++ {
+			q := oc
+			runOwner(c, &q)
+		}
 	case "pingpong":
 		var pp PingPong
 		if err := json.Unmarshal(c.Replay, &pp); err != nil {
